@@ -494,4 +494,6 @@ SYSTEMS = [
     # the universe of the property: three units, five streams, depth-bounded, all operations incl. pipe notation
     # and Connection.reconnect of an earlier snapshot
     C18('c18.depth.F-VI-VO', ('F', 'VI', 'VO'), 5, 4, 2, 3, snapshots=True),
+    # a larger universe (four units, six streams), all operations once (quick) / twice (thorough)
+    C18('c18.depth.F-VI-VO-G', ('F', 'VI', 'VO', 'G'), 6, 4, 1, 2, snapshots=True),
 ]
